@@ -23,7 +23,7 @@ RULE = ('One real instance with 1-3 AsyncServiceBrowsers (single- and multi-type
 ASSUMPTIONS = [
     'restrictions stated in the property: pointer owner spelled exactly as the browsed type, no sub/super-types, no two case '
     'variants of one name inside a datagram, browsers created only while no expired-but-unpurged pointer of their types is cached',
-    'same identity with zero and non-zero TTL inside one datagram is outside the claim',
+    'which outcome a datagram has that lists one record with a zero and a non-zero TTL is outside the claim; the callbacks must agree with the cache either way',
 ]
 BUDGET = {'quick': {'examples': 2500}, 'thorough': {'examples': 20000, 'shards': 16}}
 
@@ -262,8 +262,9 @@ class Exec:
                 for r in recs:
                     seen.setdefault(rec_identity(r), set()).add(r['ttl'] == 0)
                 if any(len(v) == 2 for v in seen.values()):
-                    self.stats['contradictory_dropped'] += 1
-                    continue
+                    # one record with a zero and a non-zero TTL in one datagram: which of the two outcomes the cache ends up with is
+                    # outside the claim, but whatever it is, the callbacks have to agree with it
+                    self.stats['contradictory_kept'] = self.stats.get('contradictory_kept', 0) + 1
                 data = wire.encode({'id': msg_id, 'flags': 0x8400, 'qd': [], 'an': [to_rr(r) for r in recs], 'ns': [], 'ar': []})
                 msg_id += 1
                 self.current = recs
